@@ -81,7 +81,7 @@ pub fn run_c07(cx: &Cx) -> PropResult {
     let per_shard = cx.n(6_000, 200_000);
     let acc = parallel(cx, &|shard, acc| {
         let strat = suffix_case_strategy(3);
-        drive(derive_seed(cx.seed, cx.prop, shard as u64, 0), &strat, per_shard, acc, &|c: &SuffixCase| to_json(c), &mut |c, a, r| check_c07(c, a, r));
+        drive(crate::run::tag_seed(derive_seed(cx.seed, cx.prop, shard as u64, 0), 0), &strat, per_shard, acc, &|c: &SuffixCase| to_json(c), &mut |c, a, r| check_c07(c, a, r));
     });
     let mut r = PropResult::new(
         acc,
@@ -173,7 +173,7 @@ pub fn run_c08(cx: &Cx) -> PropResult {
     let acc = parallel(cx, &|shard, acc| {
         let cfg = ValCfg { max_len: 6, long: shard % 4 == 0, ..ValCfg::default() };
         let strat = tv_strategy(3, cfg);
-        drive(derive_seed(cx.seed, cx.prop, shard as u64, 0), &strat, per_shard, acc, &|c: &TV| to_json(c), &mut |c, a, r| check_c08(c, a, r));
+        drive(crate::run::tag_seed(derive_seed(cx.seed, cx.prop, shard as u64, 0), 0), &strat, per_shard, acc, &|c: &TV| to_json(c), &mut |c, a, r| check_c08(c, a, r));
     });
     let mut r = PropResult::new(
         acc,
@@ -395,7 +395,7 @@ pub fn run_c12(cx: &Cx) -> PropResult {
     let per_shard = cx.n(6_000, 250_000);
     let acc = parallel(cx, &|shard, acc| {
         let strat = cont_case_strategy();
-        drive(derive_seed(cx.seed, cx.prop, shard as u64, 0), &strat, per_shard, acc, &|c: &ContCase| to_json(c), &mut |c, a, r| check_c12(c, a, r));
+        drive(crate::run::tag_seed(derive_seed(cx.seed, cx.prop, shard as u64, 0), 0), &strat, per_shard, acc, &|c: &ContCase| to_json(c), &mut |c, a, r| check_c12(c, a, r));
     });
     PropResult::new(
         acc,
